@@ -302,7 +302,7 @@ fn query_strategy() -> impl Strategy<Value = String> {
         // uses of the previous answer
         4 => proptest::sample::select(vec!["ans", "ANS", "_", "ans * 2", "ans + ans", "_ / 3", "ans -> m", "ans m", "-ans", "ans^2", "ans -> digits 3", "2 ans + 1", "ans mod 7", "sqrt(ans)", "ans -> ft;inch", "ans s"]).prop_map(|s| s.to_string()),
         // conversions
-        3 => (n(), proptest::sample::select(vec!["ft -> m", "km -> mile", "°C -> °F", "hour -> hour;min;sec", " -> digits 5", " -> hex", "kg -> lb;oz", "W -> horsepower", "m -> potato = 3 ft"])).prop_map(|(a, t)| format!("{} {}", a, t)),
+        3 => (n(), proptest::sample::select(vec!["ft -> m", "km -> mile", "°C -> °F", "hour -> hour;min;sec", " -> digits 5", " -> hex", " -> base 10", " -> base 16", " -> base 2", " -> bin", " -> oct", " -> digits 5 base 10", " -> frac", " -> sci", " -> eng base 10", "kg -> lb;oz", "W -> horsepower", "m -> potato = 3 ft"])).prop_map(|(a, t)| format!("{} {}", a, t)),
         // definition lookups and commands
         2 => proptest::sample::select(vec!["foot", "watt", "kg", "power", "mile", "c", "pi"]).prop_map(|s| s.to_string()),
         2 => proptest::sample::select(vec!["units for velocity", "units for kg", "factorize velocity", "factorize m/s", "search mile", "search watt", "units of area"]).prop_map(|s| s.to_string()),
